@@ -199,7 +199,7 @@ func c17emitDec(c *hx.Ctx, d c17dec) {
 	}
 }
 
-func rs(num, den uint32) c17score        { return c17score{Num: num, Den: den} }
+func rs(num, den uint32) c17score         { return c17score{Num: num, Den: den} }
 func xs(bits uint32, cnt uint32) c17score { return c17score{Raw: true, Den: cnt, Bits: bits} }
 
 const (
@@ -212,15 +212,15 @@ const (
 
 // classes of score arguments; within a class every representative has the same comparison outcomes
 var c17shortClasses = [][]c17score{
-	{rs(0, 0)},                                  // nothing qualified: score 0, count 0
-	{rs(0, 6), rs(0, 5), rs(0, 3)},              // zero with qualified flips
-	{rs(1, 6), rs(11, 10), rs(7, 6), rs(5, 5), xs(bits06-1, 6), xs(1, 6)},           // 0 < s < 0.6 (… one ulp below, smallest subnormal)
+	{rs(0, 0)},                     // nothing qualified: score 0, count 0
+	{rs(0, 6), rs(0, 5), rs(0, 3)}, // zero with qualified flips
+	{rs(1, 6), rs(11, 10), rs(7, 6), rs(5, 5), xs(bits06-1, 6), xs(1, 6)},                 // 0 < s < 0.6 (… one ulp below, smallest subnormal)
 	{rs(6, 5), rs(12, 10), rs(5, 4), rs(12, 6), rs(9, 6), xs(bits06, 5), xs(bits06+1, 6)}, // s >= 0.6 (exact, one ulp above)
-	{rs(0, 1), rs(1, 1)},                        // one qualified flip, below 0.6
-	{rs(2, 1)},                                  // one qualified flip, 1.0
-	{rs(0, 2)},                                  // two qualified flips, zero
-	{rs(1, 2), rs(2, 2)},                        // two qualified flips, positive below 0.6
-	{rs(3, 2), rs(4, 2)},                        // two qualified flips, >= 0.6
+	{rs(0, 1), rs(1, 1)}, // one qualified flip, below 0.6
+	{rs(2, 1)},           // one qualified flip, 1.0
+	{rs(0, 2)},           // two qualified flips, zero
+	{rs(1, 2), rs(2, 2)}, // two qualified flips, positive below 0.6
+	{rs(3, 2), rs(4, 2)}, // two qualified flips, >= 0.6
 }
 var c17longClasses = [][]c17score{
 	{rs(0, 0), rs(0, 4), rs(7, 5), rs(29, 20), rs(5, 4), xs(bits075-1, 10)},
